@@ -131,7 +131,8 @@ RetargetOK(cfg, c, k) ==
 
 -----------------------------------------------------------------------------
 TimelineChanging ==
-  {"declare", "target", "delay", "add", "align", "eom_on", "eom_off", "eom_mod", "eom_add"}
+  {"declare", "target", "delay", "add", "align", "eom_on", "eom_off", "eom_mod", "eom_add",
+   "detmap", "dmm_add"}
 ReadOnly == {"est"}
 
 Timeline(st) == [i \in 1..Len(st.ch) |-> <<st.ch[i].nm, st.ch[i].sl, st.ch[i].eb>>]
@@ -145,17 +146,77 @@ PrevEstimate(c, h) ==
              /\ pc.nm = c.nm /\ pc.p = c.p /\ pc.proto = c.proto
           THEN <<TRUE, e[3]>> ELSE <<FALSE, 0>>
 
+(* phases compared on the circle within PhaseTol units *)
+PhEq(a, b) ==
+  IF PhaseTol = 0 THEN a = b
+  ELSE LET d == Abs(a - b) % PhaseMod IN Min2(d, PhaseMod - d) <= PhaseTol
+
+(* slots appended by the transition: <<channel index, slot index>> *)
+NewSlots(pre, post) ==
+  {<<j, k>> \in UNION {{j} \X (1..Len(post.ch[j].sl)) : j \in 1..Len(post.ch)} :
+       j > Len(pre.ch) \/ k > Len(pre.ch[j].sl)}
+
+-----------------------------------------------------------------------------
+(* C01: a scheduled pulse is within the limits of its channel *)
+PulseWithinLimits(cfg, c, op) ==
+  LET w == op.w
+      d == op.tf - op.ti
+  IN
+  /\ w[10] = 1                                              \* finite samples
+  /\ cfg.maxAmp # -1 => w[4] <= cfg.maxAmp
+  /\ cfg.maxDet # -1 => w[8] <= cfg.maxDet
+  /\ (w[5] = 0 \/ w[5] >= cfg.minAvg \/ w[5] < 0)
+  /\ d % cfg.clock = 0 /\ d >= cfg.minDur /\ (cfg.maxDur # -1 => d <= cfg.maxDur)
+  /\ cfg.kind = "dmm" =>
+        /\ w[11] <= 0
+        /\ cfg.bottom # NoLim => c.mp[1] * w[9] >= 2 * cfg.bottom
+        /\ cfg.tbottom # NoLim => c.mp[2] * w[9] >= 2 * cfg.tbottom
+
+FactsWithinLimits(cfg, P) ==
+  /\ P.fin
+  /\ cfg.maxAmp # -1 => P.am <= cfg.maxAmp
+  /\ cfg.maxDet # -1 => P.dm <= cfg.maxDet
+  /\ (P.av <= 0 \/ P.av >= cfg.minAvg)
+  /\ P.dur >= cfg.minDur /\ (cfg.maxDur # -1 => P.dur <= cfg.maxDur)
+  /\ (P.dur % cfg.clock = 0 \/ P.rs)
+
+-----------------------------------------------------------------------------
+(* C15: pulses inside an EOM block *)
+BlockOf(c, op) ==
+  LET B == {b \in 1..Len(c.eb) : c.eb[b].ti <= op.ti /\ (c.eb[b].tf = -1 \/ op.ti < c.eb[b].tf)}
+  IN IF B = {} THEN 0 ELSE CHOOSE b \in B : \A x \in B : x <= b
+EomSquareOK(c, op) ==
+  LET b == BlockOf(c, op) IN
+  (op.k = "p" /\ b # 0) =>
+    LET blk == c.eb[b] w == op.w IN
+    /\ w[2] = w[4] /\ w[3] = w[4] /\ w[6] = w[7]          \* flat
+    /\ \/ (w[4] = blk.amp /\ w[6] = blk.don /\ (~op.dd \/ blk.amp = 0))
+       \/ (w[4] = 0 /\ w[6] = blk.doff /\ op.dd)
+
+-----------------------------------------------------------------------------
 Viol(pre, c, r, h) ==
   LET post == r.st
       ok == r.out = "ok"
       i == IF "nm" \in DOMAIN c THEN ChIdx(pre, c.nm) ELSE 0
-      isAdd == c.op \in {"add", "eom_add"} /\ ok
+      isAdd == c.op \in {"add", "eom_add", "dmm_add"} /\ ok
       new == LastOf(post.ch[i].sl)                 \* only used when isAdd
       proto == c.proto                             \* only used when isAdd
       t0 == ChanDur(pre.ch[i])
-      \* the phase of the new pulse decides whether a phase jump is needed;
-      \* with drift correction it depends on the start time, so the stored one is used
+      cfgi == CfgOf(pre, i)
+      \* with an SLM trigger the pulse of the call is not the last slot of any other channel;
+      \* on its own channel it still is
       NewPh == new.ph
+      bi == RefIdx(pre, cfgi.basis)
+      lastTg == LastOf(pre.ch[i].sl).tg
+      cpd == "cpd" \in DOMAIN c /\ c.cpd
+      RefLast(st, b, q) == LastOf(st.rf[b].q[q].ps)
+      \* the shift this call is documented to apply to qubit q of basis index b (no drift terms)
+      Shift(b, q) ==
+        IF c.op = "pshift" /\ ok /\ b = RefIdx(pre, c.basis)
+           /\ (c.tg = 0 \/ HasBit(c.tg, q)) THEN c.phi
+        ELSE IF c.op = "add" /\ ok /\ b = bi /\ HasBit(lastTg, q) THEN Pulses[c.p].pps
+        ELSE IF c.op = "eom_add" /\ ok /\ b = bi /\ HasBit(lastTg, q) THEN PMod(c.pps)
+        ELSE 0
   IN
   (IF ~Tiling(post) THEN {"C02.Tiling"} ELSE {})
   \cup (IF ~SlotsOnlyGrow(pre, post) THEN {"C02.SlotsOnlyGrow"} ELSE {})
@@ -164,18 +225,54 @@ Viol(pre, c, r, h) ==
         THEN {"C02.DurFall"} ELSE {})
   \cup (IF ~ok /\ post # pre THEN {"C09.FailUnchanged"} ELSE {})
   \cup (IF c.op \in ReadOnly /\ post # pre THEN {"C09.ReadOnly"} ELSE {})
-  \cup (IF Measured(pre) /\ c.op \in TimelineChanging /\ (ok \/ Timeline(post) # Timeline(pre))
+  \* ---- C13 -------------------------------------------------------------
+  \cup (IF Measured(pre) /\ (Timeline(post) # Timeline(pre) \/ (c.op \in TimelineChanging /\ ok))
         THEN {"C13.FrozenAfterMeasure"} ELSE {})
+  \cup (IF ~DevOf(post).reusable
+           /\ \E j, k \in 1..Len(post.ch) : j # k /\ post.ch[j].cid = post.ch[k].cid
+        THEN {"C13.OncePerId"} ELSE {})
+  \cup (IF \E j, k \in 1..Len(post.ch) : j # k /\ post.ch[j].nm = post.ch[k].nm
+        THEN {"C13.UniqueNames"} ELSE {})
+  \cup (IF \E j, k \in 1..Len(post.ch) :
+             CfgOf(post, j).basis = "XY" /\ CfgOf(post, k).basis # "XY"
+        THEN {"C13.XYExclusive"} ELSE {})
+  \cup (IF i # 0 /\ ok /\
+           \/ (InEom(pre.ch[i]) /\ c.op \in {"add", "target", "eom_on"})
+           \/ (~InEom(pre.ch[i]) /\ c.op \in {"eom_add", "eom_off", "eom_mod"})
+        THEN {"C13.EomDiscipline"} ELSE {})
+  \cup (IF i # 0 /\ ok /\ c.op \in {"add", "eom_add"} /\ Len(pre.ch[i].sl) = 0
+        THEN {"C13.TargetBeforePulse"} ELSE {})
+  \cup (IF \E x \in NewSlots(pre, post) : post.ch[x[1]].sl[x[2]].k = "p" /\ post.ch[x[1]].sl[x[2]].tg = 0
+        THEN {"C13.TargetBeforePulse"} ELSE {})
+  \* ---- C01 -------------------------------------------------------------
+  \cup (IF \E x \in NewSlots(pre, post) :
+             LET op == post.ch[x[1]].sl[x[2]] IN
+             op.k = "p" /\ ~PulseWithinLimits(CfgOf(post, x[1]), post.ch[x[1]], op)
+        THEN {"C01.WithinLimits"} ELSE {})
+  \cup (IF DevOf(post).maxSeq # -1 /\ \E j \in 1..Len(post.ch) : ChanDur(post.ch[j]) > DevOf(post).maxSeq
+        THEN {"C01.SeqDuration"} ELSE {})
+  \cup (IF c.op = "add" /\ ok
+           /\ \/ new.w[1] # RoundUp(Pulses[c.p].dur, cfgi.clock)
+              \/ (Pulses[c.p].dur % cfgi.clock = 0 /\ new.w # PF[pre.dev][pre.ch[i].cid][c.p].w)
+        THEN {"C01.OnlyLengthened"} ELSE {})
+  \cup (IF c.op = "add" /\ r.out \in {"VE", "TE"} /\ i # 0 /\ ~Measured(pre)
+           /\ ~InEom(pre.ch[i]) /\ cfgi.kind # "dmm" /\ c.proto \in Protocols
+           /\ Len(pre.ch[i].sl) > 0 /\ Cardinality(RefPhases(pre, bi, lastTg)) = 1
+           /\ FactsWithinLimits(cfgi, Pulses[c.p])
+           /\ (cfgi.maxDur = -1 \/ \E t \in t0..(t0 + cfgi.maxDur) :
+                  StartAllowed(pre, i, c.proto,
+                               PMod(Pulses[c.p].ph + (CHOOSE x \in RefPhases(pre, bi, lastTg) : TRUE)),
+                               t, TRUE))
+        THEN {"C01.AcceptInside"} ELSE {})
+  \* ---- C03 -------------------------------------------------------------
   \cup (IF isAdd /\ ~StartAllowed(pre, i, proto, NewPh, new.ti, FALSE)
         THEN {"C03.NoConflict"} ELSE {})
   \cup (IF isAdd /\ (\E t \in t0..(new.ti - 1) : StartAllowed(pre, i, proto, NewPh, t, TRUE))
         THEN {"C03.Minimal"} ELSE {})
   \cup (IF isAdd /\ proto = "no-delay" /\ new.ti - t0 > 0
-           /\ new.ti # t0 + RoundUp(Max2(RefBarrier(pre, RefIdx(pre, CfgOf(pre, i).basis),
-                                                     LastOf(pre.ch[i].sl).tg) - t0,
-                                          CfgOf(pre, i).minDur), CfgOf(pre, i).clock)
+           /\ new.ti # t0 + RoundUp(Max2(RefBarrier(pre, bi, lastTg) - t0, cfgi.minDur), cfgi.clock)
         THEN {"C03.NoDelayExact"} ELSE {})
-  \cup (IF isAdd /\ PrevEstimate(c, h)[1] /\ PrevEstimate(c, h)[2] # new.ti - t0
+  \cup (IF isAdd /\ c.op = "add" /\ PrevEstimate(c, h)[1] /\ PrevEstimate(c, h)[2] # new.ti - t0
         THEN {"C03.EstimateExact"} ELSE {})
   \cup (IF c.op = "align" /\ ok
            /\ LET I == {ChIdx(pre, c.nms[k]) : k \in 1..Len(c.nms)}
@@ -191,19 +288,30 @@ Viol(pre, c, r, h) ==
                            THEN ChanDur(pre.ch[j]) + RoundUp(Max2(need, cfg.minDur), cfg.clock)
                            ELSE ChanDur(pre.ch[j]))
         THEN {"C03.AlignTogether"} ELSE {})
-  \cup (IF \E j \in 1..Len(post.ch) :
-             \E k \in (IF j <= Len(pre.ch) THEN Len(pre.ch[j].sl) + 1 ELSE 1)..Len(post.ch[j].sl) :
-                ~PhaseJumpOK(CfgOf(post, j), post.ch[j], k, isAdd /\ j = i /\ proto = "no-delay")
+  \* ---- C10 -------------------------------------------------------------
+  \cup (IF \E x \in NewSlots(pre, post) :
+             ~PhaseJumpOK(CfgOf(post, x[1]), post.ch[x[1]], x[2],
+                          isAdd /\ x[1] = i /\ proto = "no-delay")
         THEN {"C10.PhaseJump"} ELSE {})
-  \cup (IF \E j \in 1..Len(post.ch) :
-             \E k \in (IF j <= Len(pre.ch) THEN Len(pre.ch[j].sl) + 1 ELSE 1)..Len(post.ch[j].sl) :
-                ~RetargetOK(CfgOf(post, j), post.ch[j], k)
+  \cup (IF \E x \in NewSlots(pre, post) : ~RetargetOK(CfgOf(post, x[1]), post.ch[x[1]], x[2])
         THEN {"C10.Retarget"} ELSE {})
   \cup (IF c.op = "target" /\ ok /\ i # 0 /\ Len(pre.ch[i].sl) > 0
            /\ LastOf(pre.ch[i].sl).tg = c.tg /\ post.ch[i].sl # pre.ch[i].sl
         THEN {"C10.SameTargetNoop"} ELSE {})
-  \cup (IF isAdd /\ new.ti < RefBarrier(pre, RefIdx(pre, CfgOf(pre, i).basis),
-                                         LastOf(pre.ch[i].sl).tg)
+  \* ---- C07 -------------------------------------------------------------
+  \cup (IF isAdd /\ new.ti < RefBarrier(pre, bi, lastTg)
         THEN {"C07.Barrier"} ELSE {})
+  \cup (IF isAdd /\ ~cpd /\ c.op \in {"add", "eom_add"}
+           /\ LET prog == IF c.op = "add" THEN Pulses[c.p].ph ELSE PMod(c.ph)
+                  R == RefPhases(pre, bi, lastTg)
+              IN ~(\E x \in R : PhEq(new.ph, PMod(prog + x)))
+        THEN {"C07.PhaseIsProgPlusRef"} ELSE {})
+  \cup (IF ~cpd /\ Len(post.rf) >= Len(pre.rf)
+           /\ \E b \in 1..Len(pre.rf) : \E q \in 1..NQ(pre) :
+                 ~PhEq(RefLast(post, b, q), PMod(RefLast(pre, b, q) + Shift(b, q)))
+        THEN {"C07.Additive"} ELSE {})
+  \* ---- C15 -------------------------------------------------------------
+  \cup (IF \E x \in NewSlots(pre, post) : ~EomSquareOK(post.ch[x[1]], post.ch[x[1]].sl[x[2]])
+        THEN {"C15.EomSquare"} ELSE {})
 
 =============================================================================
